@@ -858,6 +858,11 @@ namespace
             runtime.__logmsg(err::ReturningNil(runtime.context_active().current_frame().diag_info_from_position()));
             return {};
         }
+        if (from >= (int)arr->size())
+        { // nothing at or behind that index
+            runtime.__logmsg(err::IndexOutOfRangeWeak(runtime.context_active().current_frame().diag_info_from_position(), arr->size(), from));
+            return {};
+        }
         if (to >= (int)arr->size())
         {
             runtime.__logmsg(err::IndexOutOfRangeWeak(runtime.context_active().current_frame().diag_info_from_position(), arr->size(), to));
